@@ -267,6 +267,12 @@ pub fn boundary_values(v: i32) -> Vec<i32> {
         v.wrapping_neg(),
         v.wrapping_add(4),
         v.wrapping_sub(4),
+        // aliases: counts that leave every 32-bit size computation unchanged modulo 2^32
+        v.wrapping_add(1 << 28),
+        v.wrapping_add(1 << 29),
+        v.wrapping_add(1 << 30),
+        v.wrapping_add(i32::MIN),
+        v.wrapping_add(3 << 29),
     ];
     b.sort();
     b.dedup();
@@ -384,6 +390,7 @@ fn unbacked_mut(nrec_hint: usize) -> BoxedStrategy<Mut> {
         (1i32 << 20)..i32::MAX,
     ];
     let parts = prop_oneof![3 => Just(1i32), 1 => 0i32..8, 2 => big.clone()];
+    let big = prop_oneof![4 => big, 1 => (0i32..8, 1i32..8).prop_map(|(r, k)| r.wrapping_add(k << 28))];
     prop_oneof![
         6 => (0..nrec_hint.max(1), big.clone(), parts, any::<bool>(), prop_oneof![Just(0usize), 0usize..64, 64usize..4096])
             .prop_map(|(rec, points, parts, with_m, keep)| Mut::Unbacked { rec, points, parts, with_m, keep }),
@@ -394,7 +401,7 @@ fn unbacked_mut(nrec_hint: usize) -> BoxedStrategy<Mut> {
 
 fn random_cases(unbacked_only: bool) -> BoxedStrategy<ByteCase> {
     let field_mut = (any::<usize>(), prop_oneof![
-        4 => (0usize..28, any::<i32>()).prop_map(|(k, v)| { let b = boundary_values(v); b[k % b.len()] }),
+        4 => (0usize..40, any::<i32>()).prop_map(|(k, v)| { let b = boundary_values(v); b[k % b.len()] }),
         1 => any::<i32>(),
     ])
         .prop_map(|(idx, value)| Mut::Field { idx: idx % 4096, value });
@@ -435,7 +442,8 @@ bytes_prop!(
     "exhaustive: base files from the reference encoder (all 14 header codes, foreign layouts; 2 per type quick, 8 thorough) x EVERY \
      32-bit field of the encoder's field map (header length/version/type, record number/length/type, part and point counts, every part \
      offset, every patch kind, shx header length/type, every index offset/length) x EVERY boundary value {0,+-1,2,i32::MIN/MAX,2^30,2^30+-1, \
-     2^31-2,-2^30,0x3FFFFFFF,2^29,2^28,2^24,2^16,100,50,49,f+-1,f+-4,2f,f/2,-f,byte-swapped f}. Non-trivial: the reader opens and a record is attempted"
+     2^31-2,-2^30,0x3FFFFFFF,2^29,2^28,2^24,2^16,100,50,49,f+-1,f+-4,2f,f/2,-f,byte-swapped f, f+2^28, f+2^29, f+2^30, f+2^31, f+3*2^29 \
+     (the last five leave 32-bit size computations unchanged modulo 2^32)}. Non-trivial: the reader opens and a record is attempted"
 );
 impl EnumProp for FieldGrid {
     fn enumerate(env: &Env) -> Box<dyn Iterator<Item = ByteCase>> {
